@@ -184,7 +184,7 @@ func init() {
 		}})
 	Register(&Check{Prop: "C11", Sub: "unconfirmed-file", Weight: 1,
 		Real: []string{"internal/storage.TxRepository (Add, MarkUnsafe, MarkTrusted, GetNewSafe, Save, Load)"}, Stub: []string{"disk (simdisk)", "clock (synctest)"},
-		Rule: "unconfirmed sets of 0..n entries with every flag combination and distinct first-seen times, saved and loaded into a fresh repository; non-trivial = at least one entry.",
+		Rule: "unconfirmed sets of 0..8 entries with every flag combination and distinct first-seen times, saved and loaded into a fresh repository over one to three generations on the same disk (between saves the set is finalised to all / some / none of its entries like after a confirming block, and grows again); non-trivial = at least one entry.",
 		Run: func(c *Ctx) {
 			t := c.Scen
 			for k := 0; k < 40; k++ {
@@ -203,17 +203,56 @@ func init() {
 					}
 					desc += fmt.Sprintf(" %d", flags)
 				}
-				want := repo.VerifUnconfirmedSet()
-				if err := repo.Save(ctx); err != nil {
-					c.Violate("restart-file", "save", "Save failed: %v", err)
-					return
+				// one to three generations on the same disk: between saves the set shrinks the way it
+				// does when a block confirms tracked transactions (possibly to nothing) and grows again
+				gens := 1 + int(t.Choose(3))
+				var got, want map[bitcoin.Hash32]storage.VerifUnconfirmed
+				for gen := 0; gen < gens; gen++ {
+					if gen > 0 {
+						ids, err := repo.GetUnconfirmed(ctx)
+						if err != nil {
+							c.Violate("restart-file", "get-unconfirmed", "%v", err)
+							return
+						}
+						keep := ids[:0:0]
+						mode := t.Choose(3) // 0: everything confirms, 1: some, 2: none
+						for _, id := range ids {
+							if mode == 2 || (mode == 1 && t.Bool(1, 2)) {
+								keep = append(keep, id)
+							}
+						}
+						if err := repo.FinalizeUnconfirmed(ctx, keep); err != nil {
+							c.Violate("restart-file", "finalize", "%v", err)
+							return
+						}
+						desc += fmt.Sprintf(" | keep %d of %d", len(keep), len(ids))
+						if len(keep) == 0 && len(ids) > 0 {
+							c.Probe("set_emptied_before_save")
+						}
+						for i := int(t.Choose(3)); i > 0 && mode != 0; i-- {
+							id := dsha([]byte(fmt.Sprintf("u%d-%d-g%d-%d", c.Run, k, gen, i)))
+							repo.Add(ctx, bitcoin.Hash32(id), t.Bool(1, 2), t.Bool(1, 2), -1)
+							desc += " +1"
+						}
+					}
+					want = repo.VerifUnconfirmedSet()
+					if err := repo.Save(ctx); err != nil {
+						c.Violate("restart-file", "save", "Save failed: %v", err)
+						return
+					}
+					repo2 := storage.NewTxRepository(disk)
+					if err := repo2.Load(ctx); err != nil {
+						c.Violate("restart-file", "load", "Load failed after Save of %s: %v", desc, err)
+						return
+					}
+					got = repo2.VerifUnconfirmedSet()
+					if len(got) != len(want) {
+						break
+					}
+					if gen+1 < gens && t.Bool(1, 2) {
+						repo = repo2 // carry on in the restarted repository
+					}
 				}
-				repo2 := storage.NewTxRepository(disk)
-				if err := repo2.Load(ctx); err != nil {
-					c.Violate("restart-file", "load", "Load failed after Save of %s: %v", desc, err)
-					return
-				}
-				got := repo2.VerifUnconfirmedSet()
 				c.NoteCase(n > 0, desc)
 				if len(got) != len(want) {
 					c.Violate("restart-file", "count", "saved %d unconfirmed entries, loaded %d (%s)", len(want), len(got), desc)
